@@ -47,9 +47,11 @@ class TcpClient(object):
 
         msg_stop = False
         self.current_msg = ""
-        for b in self.buffer:
+        last_stop = -1
+        for i, b in enumerate(self.buffer):
             if b == 59:
                 msg_stop = True
+                last_stop = i
                 ts = time.time()
                 messages.append([self.current_msg, ts])
             if b == 42:
@@ -59,7 +61,8 @@ class TcpClient(object):
             if (not msg_stop) and (48 <= b <= 57 or 65 <= b <= 70 or 97 <= b <= 102):
                 self.current_msg = self.current_msg + chr(b)
 
-        self.buffer = []
+        # keep the incomplete message after the last ";" for next reading cycle
+        self.buffer = self.buffer[last_stop + 1 :]
 
         return messages
 
